@@ -73,7 +73,9 @@ def gate_alt_spelling(old_vals, new_vals, kind) -> bool:
     another spelling is refused"""
     so, sn = state(old_vals, 0), state(new_vals, 0)
     old = v2version.format_version(version.V2VersionInfo(**so), PAT)
-    if kind == 0:
+    if kind == 2:
+        new = str(sn["major"]) + "." + str(sn["minor"]) + "." + str(sn["patch"]) + ""     # every optional part written: 1 -> 1.0.0
+    elif kind == 0:
         new = str(sn["major"]) + "." + str(sn["minor"]) + "." + str(sn["patch"])          # PATCH written even when 0
     else:
         new = str(sn["major"]) + ".0" + str(sn["minor"]) + ("." + str(sn["patch"]) if sn["patch"] != 0 else "")   # leading zero
